@@ -177,6 +177,23 @@ def build():
     fns.append(mk(len(fns), "g", "arc", limit=5))
     fns.append(mk(len(fns), "g", "tlru", limit=6))
     fns.append(mk(len(fns), "a", "lru", limit=5))
+    # ---- appended in round 5 of the seeded changes ----
+    # nested options: (None, j) / (Some(None), j) / (Some(Some(j)), j) are three different argument lists (C01/C02)
+    for fl in ["g", "t", "a"]:
+        fns.append(mk(len(fns), fl, "lru", sig=11))
+    # the two zeros of a float parameter are different arguments: (0.0, j) / (-0.0, j) (C01/C02)
+    for fl in ["g", "t", "a"]:
+        fns.append(mk(len(fns), fl, "fifo", sig=12))
+    # Result functions with invalidate_on and NO cache_if: an Ok that refreshes a stale entry replaces it (C09)
+    fns.append(mk(len(fns), "g", "fifo", limit=3, ret=2, inval_on=True))
+    fns.append(mk(len(fns), "g", "lru", ret=3, inval_on=True))
+    fns.append(mk(len(fns), "g", "lfu", limit=2, ttl=2, ret=2, inval_on=True))
+    fns.append(mk(len(fns), "t", "lru", limit=3, ret=2, inval_on=True))
+    fns.append(mk(len(fns), "a", "fifo", limit=3, ret=3, inval_on=True))
+    # String results under max_memory in every flavour, Result and cache_if: values that fill the budget exactly (C09/C10)
+    for fl in ["g", "t", "a"]:
+        fns.append(mk(len(fns), fl, "fifo", mem=MEMS[1], ret=3))
+        fns.append(mk(len(fns), fl, "lru", mem=MEMS[5], ret=1, cache_if=True))
     return fns
 
 
@@ -223,15 +240,19 @@ SIG_PARAMS = {
     8: "key: u32, result: u32, part: u32, cache: u32",
     9: "a: &str, b: String, k: u32",
     10: "rows: Vec<Vec<u32>>",
+    11: "d: Option<Option<u32>>, k: u32",
+    12: "z: f64, k: u32",
 }
-SIG_X = {0: "k", 1: "a", 2: "k", 3: "0u32", 4: "a", 5: "c", 6: "b", 7: "k", 8: "part", 9: "k", 10: "rows[0][0]"}
+SIG_X = {0: "k", 1: "a", 2: "k", 3: "0u32", 4: "a", 5: "c", 6: "b", 7: "k", 8: "part", 9: "k", 10: "rows[0][0]", 11: "k", 12: "k"}
 # sig 6: x = 2j -> (1, 20 + j), x = 2j + 1 -> (12, j): "1" ++ "2j" = "12" ++ "j"
 SIG_ARGS = {0: "x", 1: "x, &format!(\"s{}\", x)", 2: "x / 2", 3: "", 4: "x, true, 'c', Some(x)", 5: "(x % 2, 7), x / 2",
             6: "if x % 2 == 0 { 1 } else { 12 }, if x % 2 == 0 { 20 + x / 2 } else { x / 2 }",
             7: "if x % 2 == 0 { Rest2::BC } else { Rest2::C }, x / 2",
             8: "1, 2, x, 3",
             9: "&strs9(x).0, strs9(x).1, x / 2",
-            10: "rows10(x)"}
+            10: "rows10(x)",
+            11: "opt11(x), x / 3",
+            12: "zero12(x), x / 2"}
 SIG_KEY = {0: 'format!("{:?}", x)',
            1: 'format!("{:?}|{:?}", x, format!("s{}", x).as_str())',
            2: 'format!("{:?}|{:?}", recv(x), x / 2)',
@@ -242,7 +263,9 @@ SIG_KEY = {0: 'format!("{:?}", x)',
            7: 'format!("{:?}|{:?}|{:?}", half(x), if x % 2 == 0 { Rest2::BC } else { Rest2::C }, x / 2)',
            8: 'format!("{:?}|{:?}|{:?}|{:?}", 1u32, 2u32, x, 3u32)',
            9: 'format!("{:?}|{:?}|{:?}", strs9(x).0.as_str(), strs9(x).1, x / 2)',
-           10: 'format!("{:?}", rows10(x))'}
+           10: 'format!("{:?}", rows10(x))',
+           11: 'format!("{:?}|{:?}", opt11(x), x / 3)',
+           12: 'format!("{:?}|{:?}", zero12(x), x / 2)'}
 BODY = ["body_u64", "body_string", "body_res_u64", "body_res_string", "body_slow", "body_weighted"]
 
 
@@ -270,6 +293,10 @@ def emit(fns, out):
     o.append("pub fn rows10(x: u32) -> Vec<Vec<u32>> { if x % 2 == 0 { vec![vec![x / 2, 2], vec![3]] } else { vec![vec![x / 2], vec![2, 3]] } }")
     o.append("/// x = 2j -> (\"kj|m\", \"n\"), x = 2j + 1 -> (\"kj\", \"m|n\"): alike once the quotes are gone")
     o.append("pub fn strs9(x: u32) -> (String, String) { if x % 2 == 0 { (format!(\"k{}|m\", x / 2), \"n\".to_string()) } else { (format!(\"k{}\", x / 2), \"m|n\".to_string()) } }")
+    o.append("/// x = 3j -> None, 3j + 1 -> Some(None), 3j + 2 -> Some(Some(j))")
+    o.append("pub fn opt11(x: u32) -> Option<Option<u32>> { match x % 3 { 0 => None, 1 => Some(None), _ => Some(Some(x / 3)) } }")
+    o.append("/// x = 2j -> 0.0, x = 2j + 1 -> -0.0")
+    o.append("pub fn zero12(x: u32) -> f64 { if x % 2 == 0 { 0.0 } else { -0.0 } }")
     for f in fns:
         i = f["idx"]
         ret = RET[f["ret"]]
